@@ -46,6 +46,16 @@ func icOps() []icOp {
 			}})
 		}
 	}
+	for _, id := range []string{"Eco", "eco"} {
+		id := id
+		ops = append(ops, icOp{name: "SetActiveMode(" + id + ")", run: func(m *electricpb.Model) error {
+			return m.SetActiveMode(&traits.ElectricMode{Id: id})
+		}})
+		ops = append(ops, icOp{name: "UpdateMode(" + id + ",title)", run: func(m *electricpb.Model) error {
+			_, err := m.UpdateMode(&traits.ElectricMode{Id: id, Title: "u", Normal: true})
+			return err
+		}})
+	}
 	ops = append(ops, icOp{name: "ChangeToNormalMode", run: func(m *electricpb.Model) error {
 		_, err := m.ChangeToNormalMode()
 		return err
@@ -65,7 +75,7 @@ func icRun(path []int) (key, msg string) {
 		_, activeExisted := m.FindMode(before.Id)
 		err := o.run(m)
 		hist := strings.Join(names, " ; ")
-		if strings.HasPrefix(o.name, "Change") && err == nil {
+		if (strings.HasPrefix(o.name, "Change") || strings.HasPrefix(o.name, "SetActive")) && err == nil {
 			changed = true
 		}
 		if o.del != "" && changed && activeExisted && strings.EqualFold(o.del, before.Id) {
